@@ -22,7 +22,7 @@ EXPLANATION = (
 MANIFEST = {
     "engine": "mirfacts+witness",
     "technique": "static analysis: typestate producer/consumer analysis over signatures + MIR, control-dependence rules on the derive's validation paths, compile_fail witnesses with twins",
-    "level_note": "R20.1 covers all programs using the public builder API (privacy + no unsafe). The witness part is finite. Trusted: rustc.",
+    "level_note": "R20.1 covers all programs using the public builder API (privacy + no unsafe). The witness part is finite (37 programs). The MIR rules over the derive's validation code (R20.3) are cross-checks: where one does not recognise the code shape it abstains (listed in the evidence) and the compile_fail witnesses decide. Trusted: rustc.",
 }
 
 B = "scale_info::build::"
